@@ -77,5 +77,8 @@ Expect ==
 Export == PrintT("REPLAY " \o ToJson([ops |-> log, cfg |-> [retention |-> RetentionNs, ooo |-> OutOfOrder],
                                       expect |-> Expect]))
 
+(* the action property of History.tla over the variables of this module *)
+ErasedStaysErasedMC == [][\A k \in Keys : May(k, visible)' \cap OfKey(hist, k) \subseteq May(k, visible)]_mcvars
+
 View == <<vars, nflush, ncompact, nreopen, ntick>>
 =============================================================================
